@@ -1,10 +1,16 @@
 """C02 — dispatch order: priority then FIFO per pass; handler priority; stop().
 
-Cases are programs: a table of handlers (event name -> handlers with a priority and a straight-line
-body of fire(name, priority) / event.stop() / flush() actions) and a main program of the same actions.
-The same program is run through the real Manager (fire()/flush() only) and through the Coq model
-(Model/DispatchOrder.v); the complete log of fire / dispatch / handler invocation (with nesting depth) /
-stop / return / flush entry+exit is compared.  The oracle re-reads the property on the implementation log.
+Cases are programs: a table of handlers (event name -> handlers with a priority and a straight-line body of
+fire(name, priority[, cancelled | stopped-before-dispatch]) / event.stop() / flush() / return <generator> / raise
+actions) and a main program of fires, flush()/tick() calls, fires on not yet registered components and register().
+The same program is run through the real Manager and through the Coq model (Model/DispatchOrder.v); the complete log
+of fire / dispatch / handler invocation (with nesting depth) / stop / generator return / raise / flush entry is
+compared.  The oracle re-reads the property on the implementation log.
+
+Definition used throughout (it is a definition, not a finding): the *fire order* of events that sat in the queue of a
+not yet registered component is their *arrival order in the root queue*, i.e. they count as fired at the moment of
+register(), in the order they were fired on that component, followed by the `registered` event.  The driver therefore
+numbers and logs them at register() time; the model program has them at that point.
 """
 import sys, os
 sys.path.insert(0, os.path.dirname(os.path.abspath(__file__)))
@@ -15,8 +21,24 @@ from circuits import BaseComponent, Event, handler
 
 # priority values used for events and handlers: ints, floats, negative, equal-but-different-type values
 PRIOS = [-2, -1, -0.5, 0, 0.5, 1, 3, 1.0, -0.0, True, 0.0, -1.0, 2, False]
-REG_NAME = 99            # model name of the handler-less `registered` event fired by register()
-OBS_PRIO = 1000          # the harness' own dispatch observer runs before every generated handler
+GE_NAME = 97             # model names of the events the core fires itself: generate_events (tick() while running),
+EXC_NAME = 98            # exception (a handler raised),
+REG_NAME = 99            # registered (register()),
+FAIL_BASE = 100          # <name>_failure = FAIL_BASE + name (a handler raised and event.failure is set)
+OBS_HID = 999            # the harness' dispatch observer: a catch-all handler that runs before every generated one
+OBS_PRIO = 1000
+
+
+def evname(n):
+    if n == GE_NAME:
+        return 'generate_events'
+    if n == EXC_NAME:
+        return 'exception'
+    if n == REG_NAME:
+        return 'registered'
+    if n >= FAIL_BASE:
+        return 'e%d_failure' % (n - FAIL_BASE)
+    return 'e%d' % n
 
 
 def key2(p):
@@ -30,33 +52,61 @@ def pack(e):
     """one log entry -> one integer, the same packing as Model/DispatchOrderObs.v pack"""
     t = e[0]
     a = b = c = 0
-    if t == 0:
+    if t in (0, 11, 12):
         a, b, c = e[1], e[2], e[3] + 1000
     elif t == 1:
         a, b, c = e[1], e[2], e[3]
-    elif t in (2, 3):
+    elif t in (2, 3, 9, 10):
         a, b = e[1], e[2]
     elif t == 6:
         a = e[1]
-    elif t == 9:
-        a, b = e[1], e[2]
-    assert 0 <= a < 1024 and 0 <= b < 1024 and 0 <= c < 1024, e
+    assert 0 <= a < 1024 and 0 <= b < 1024 and 0 <= c < 2048, e
     return t + 16 * (a + 1024 * (b + 1024 * c))
 
 
+def norm(c):
+    """upgrade cases written in the first format (one detached component, no modes) to the current one"""
+    if 'drv' in c and 'obs' in c and 'fail' in c:
+        return c
+    c = dict(c)
+    c.setdefault('drv', 'flush')
+    c.setdefault('obs', True)
+    c.setdefault('fail', [])
+    prog = []
+    for a in c['prog']:
+        if a[0] == 'cf' and len(a) == 3:
+            a = ['cf', 0, a[1], a[2]]
+        elif a[0] == 'reg' and len(a) == 1:
+            a = ['reg', 0]
+        prog.append(a)
+    c['prog'] = prog
+    return c
+
+
+class C02Raise(Exception):
+    pass
+
+
 class Ctx:
-    def __init__(self):
+    def __init__(self, case):
         self.log = []
         self.depth = 0
         self.next_id = 0
-        self.reg_id = None
+        self.reg_ids = {}        # id(component) -> id of the `registered` event its register() fired
+        self.ge_id = None
+        self.fail = set(case['fail'])
 
 
-def do_fire(ctx, comp, name, prio):
-    e = Event.create('e%d' % name)
-    e.c02_id = ctx.next_id
-    ctx.next_id += 1
-    ctx.log.append([0, e.c02_id, name, key2(prio)])
+def do_fire(ctx, comp, name, prio, mode=None, log=True):
+    e = Event.create(evname(name))
+    if name in ctx.fail:
+        e.failure = True
+    if mode == 's':
+        e.stop()                  # stopped from outside, before it is dispatched
+    if log:
+        e.c02_id = ctx.next_id
+        ctx.next_id += 1
+        ctx.log.append([{None: 0, 'c': 11, 's': 12}[mode], e.c02_id, name, key2(prio)])
     n = len(ctx.log)
     d = ctx.depth
     try:
@@ -65,6 +115,9 @@ def do_fire(ctx, comp, name, prio):
         ctx.log.append([8, type(ex).__name__])
     if len(ctx.log) != n or ctx.depth != d:
         ctx.log.append([7])      # something ran inside fire(): re-entrancy
+    if mode == 'c':
+        e.cancel()                # cancelled right after fire(), i.e. before any dispatch
+    return e
 
 
 def make_gen(nyields):
@@ -73,38 +126,61 @@ def make_gen(nyields):
         yield
 
 
-def run_body(ctx, comp, body, eid, hid, event):
-    """-> None, or the generator object the handler returns (action 'g')"""
+def do_flush(ctx, comp, how):
+    ctx.log.append([4])
+    try:
+        if how == 'flush':
+            comp.flush()
+        else:
+            comp.tick(0)          # tasks, [generate_events if running,] then one flush() if anything is queued
+    except Exception as ex:
+        ctx.log.append([8, type(ex).__name__])
+    ctx.log.append([5])
+
+
+def run_body(ctx, comp, body, eid, hid, event, name=None):
+    """-> None, or the generator object the handler returns (action 'g'); action 'r' raises"""
     for a in body:
         if a[0] == 'g':
             if event is None:
                 continue
             ctx.log.append([9, eid, hid])
             return make_gen(a[1])      # `return <generator>`: the rest of the body never runs
+        if a[0] == 'r':
+            if event is None:
+                continue
+            # the dispatcher's except clause fires [<name>_failure,] exception right after this raise; they are
+            # numbered here (nothing can happen in between) and recognised by the ids the exception carries
+            ctx.log.append([10, eid, hid])
+            ex = C02Raise()
+            ex.c02_fail_id = ex.c02_exc_id = None
+            if name in ctx.fail:
+                ex.c02_fail_id = ctx.next_id
+                ctx.next_id += 1
+                ctx.log.append([0, ex.c02_fail_id, FAIL_BASE + name, 0])
+            ex.c02_exc_id = ctx.next_id
+            ctx.next_id += 1
+            ctx.log.append([0, ex.c02_exc_id, EXC_NAME, 0])
+            raise ex
         if a[0] == 'f':
-            do_fire(ctx, comp, a[1], a[2])
+            do_fire(ctx, comp, a[1], a[2], a[3] if len(a) > 3 else None)
         elif a[0] == 's':
             if event is not None:
                 event.stop()
                 ctx.log.append([2, eid, hid])
         elif a[0] == 'x':
-            ctx.log.append([4])
-            try:
-                comp.flush()
-            except Exception as ex:
-                ctx.log.append([8, type(ex).__name__])
-            ctx.log.append([5])
+            do_flush(ctx, comp, 'flush')
         else:
             raise ValueError(a)
 
 
-def make_fn(ctx, hid, body):
+def make_fn(ctx, hid, body, name):
     def fn(self, event, *args, **kw):
         eid = getattr(event, 'c02_id', None)
         ctx.depth += 1
         ctx.log.append([1, eid, hid, ctx.depth])
         try:
-            return run_body(ctx, self, body, eid, hid, event)
+            return run_body(ctx, self, body, eid, hid, event, name)
         finally:
             ctx.log.append([3, eid, hid])
             ctx.depth -= 1
@@ -114,21 +190,34 @@ def make_fn(ctx, hid, body):
 
 
 def build(ctx, case):
-    """-> (root, child, detached).  Handlers are spread over root (comp 0) and a registered child (comp 1)."""
+    """-> (root, child, [detached components]).  Handlers are spread over root (comp 0) and a registered child."""
     members = [{'channel': 'c'}, {'channel': 'c'}]
     for name, hs in case['handlers']:
         for hid, prio, comp, body in hs:
-            members[comp]['h%d' % hid] = handler('e%d' % name, priority=prio)(make_fn(ctx, hid, body))
+            members[comp]['h%d' % hid] = handler(evname(name), priority=prio)(make_fn(ctx, hid, body, name))
 
     def observer(self, event, *args, **kw):
         eid = getattr(event, 'c02_id', None)
-        if eid is None and event.name == 'registered':
-            eid = ctx.reg_id      # the `registered` event that register() fires takes part in the pass
+        if eid is None:          # events fired by the core itself: find the id the driver gave them
+            try:
+                if event.name == 'registered':
+                    eid = ctx.reg_ids.get(id(event.args[0]))
+                elif event.name == 'generate_events':
+                    eid = ctx.ge_id
+                elif event.name == 'exception':
+                    eid = getattr(event.args[1], 'c02_exc_id', None)
+                elif event.name.endswith('_failure'):
+                    eid = getattr(event.args[1][1], 'c02_fail_id', None)
+            except Exception:
+                eid = None
+            if eid is not None:
+                event.c02_id = eid
         if eid is not None:
             ctx.log.append([6, eid])
     observer.__name__ = 'c02_observer'
     observer.c02_hid = -1
-    members[0]['c02_observer'] = handler(priority=OBS_PRIO)(observer)
+    if case['obs']:
+        members[0]['c02_observer'] = handler(priority=OBS_PRIO)(observer)
     R = type('R', (BaseComponent,), members[0])
     S = type('S', (BaseComponent,), members[1])
     D = type('D', (BaseComponent,), {'channel': 'c'})
@@ -138,7 +227,7 @@ def build(ctx, case):
         if not len(root):
             break
         root.flush()
-    return root, child, D()
+    return root, child, [D(), D(), D()]
 
 
 def base_order(root, case):
@@ -146,34 +235,36 @@ def base_order(root, case):
     iteration order, i.e. nondeterminism the property does not speak about; given to the model as input"""
     out = {}
     for name, hs in case['handlers']:
-        ev = Event.create('e%d' % name)
+        ev = Event.create(evname(name))
         got = [getattr(h, 'c02_hid', None) for h in root.getHandlers(ev, 'c')]
         out[name] = [h for h in got if h is not None and h >= 0]
     return out
 
 
 def est_events(case):
-    """upper bound of the number of events of a program (ignores stop())"""
+    """upper bound of the number of events of a program (ignores stop(), dead code)"""
     table = {name: hs for name, hs in case['handlers']}
     memo = {}
 
     def cnt(n):
         if n not in memo:
-            memo[n] = 1 + sum(cnt(a[1]) for (_, _, _, body) in table.get(n, []) for a in body if a[0] == 'f')
+            memo[n] = 1 + sum((cnt(a[1]) if a[0] == 'f' else 2 if a[0] == 'r' else 0)
+                              for (_, _, _, body) in table.get(n, []) for a in body)
         return memo[n]
-    return sum(cnt(a[1]) for a in case['prog'] if a[0] in ('f', 'cf')) + 1
+    tot = 0
+    for a in case['prog']:
+        if a[0] == 'f':
+            tot += cnt(a[1])
+        elif a[0] == 'cf':
+            tot += cnt(a[2])
+        elif a[0] in ('reg', 'x'):
+            tot += 1
+    return tot
 
 
 def est_steps(case):
-    table = {name: hs for name, hs in case['handlers']}
-    per = {n: 3 + sum(3 + 2 * len(b) for (_, _, _, b) in hs) for n, hs in table.items()}
-    memo = {}
-
-    def cnt(n):
-        if n not in memo:
-            memo[n] = per.get(n, 3) + sum(cnt(a[1]) for (_, _, _, body) in table.get(n, []) for a in body if a[0] == 'f')
-        return memo[n]
-    return 50 + 4 * len(case['prog']) + sum(cnt(a[1]) for a in case['prog'] if a[0] in ('f', 'cf'))
+    worst = max([sum(5 + 2 * len(b) for (_, _, _, b) in hs) for _, hs in case['handlers']] + [0])
+    return 100 + 8 * len(case['prog']) + est_events(case) * (10 + worst)
 
 
 class C02(Prop):
@@ -182,33 +273,54 @@ class C02(Prop):
     imports = ['Model.DispatchOrder', 'Model.DispatchOrderObs']
     quick_n = 260
     thorough_n = 9000
-    rule = ('programs over <= 8 event names; handlers (0-3 per name, on two components) with priorities from '
-            '{-2,-1,-0.5,0,0.5,1,3, 1.0,-0.0,True,False,...}, bodies of <= 5 actions fire(name,priority)/event.stop()/flush()/return <generator>, '
-            'nesting to depth 7; main program of fires and flushes (+ fires on a not yet registered component followed by '
-            'register()); run through the real Manager with fire()/flush() only. non-trivial = some handler fires during a '
-            'pass and at least two distinct priority values occur, or a handler calls flush()')
+    rule = ('programs over <= 8 event names (+ the reserved exception / <name>_failure / registered / generate_events); '
+            'handlers (0-3 per name, on two components) with priorities from {-2,-1,-0.5,0,0.5,1,3, 1.0,-0.0,True,False,...}, '
+            'bodies of <= 5 actions fire(name,priority[,cancelled|stopped before dispatch]) / event.stop() / flush() / '
+            'return <generator> / raise, nesting to depth 7+; main program of fires and flush() or tick() (not running / '
+            'running, i.e. with generate_events) calls, fires on up to 3 not yet registered components at arbitrary points '
+            'and their register(); with and without the dispatch observer handler. non-trivial = some handler fires during '
+            'a pass and at least two distinct priority values occur, or a handler calls flush()')
     trusted_base = ['hand-written model Model/DispatchOrder.v tied to /repo by this correspondence run (complete '
-                    'fire/dispatch/invoke/stop/return/flush log compared)',
+                    'fire/dispatch/invoke/stop/generator-return/raise/flush-entry log compared)',
                     'python oracle in harness/c02.py; heapq abstracted to "remove the minimum (priority, counter) key"',
                     'order of equal-priority handlers (python set iteration order) is read from Manager.getHandlers '
-                    'and given to the model as input']
+                    'and given to the model as input',
+                    'definition: fire order of events drained from a registering component = arrival order in the root queue']
     assumptions = ['priorities compare as a total preorder under Python < and == (ints, bools, non-NaN floats)',
                    'all fire() calls come from the thread that flushes (other threads: C03)',
-                   'handlers return None and do not raise (values/exceptions: C04); one root manager']
+                   'handlers return None or a trivial generator, or raise an Exception (values, task stepping: C04-C06); one root manager']
 
     def __init__(self):
         self._sched = {}
-        self.stats = {'kinds': {}, 'events_per_case': {}, 'max_depth': {}, 'stops': 0, 'nested_flush_cases': 0,
-                      'mixed_priority_cases': 0, 'drain_cases': 0}
+        self.stats = {'kinds': {}, 'drivers': {}, 'events_per_case': {}, 'max_depth': {}, 'stops': 0,
+                      'nested_flush_cases': 0, 'mixed_priority_cases': 0, 'drain_cases': 0, 'generator_returns': 0,
+                      'stop_then_generator_return': 0, 'raises': 0, 'cancelled_fires': 0, 'prestopped_fires': 0,
+                      'no_observer_cases': 0, 'drained_events': 0}
 
     # ------------------------------------------------------------------ generator
     def gen_one(self, rng, tier, kind):
         while True:
             nn = rng.randint(2, 8)
+            obs = rng.random() < 0.75
+            drv = rng.choice(['flush'] * 11 + ['tick'] * 5 + ['tickrun'] * 4)
+            raises = obs and rng.random() < 0.45
+            modes = rng.random() < 0.5
+            fail = [n for n in range(nn) if raises and rng.random() < 0.4]
             hid = 0
             handlers = []
             few = rng.random() < 0.3
             pr = rng.sample(PRIOS, rng.randint(2, 4)) if few else PRIOS
+
+            def fire(tgt):
+                a = ['f', tgt, rng.choice(pr)]
+                if modes:
+                    q = rng.random()
+                    if q < 0.12:
+                        a.append('c')
+                    elif q < 0.24:
+                        a.append('s')
+                return a
+
             for name in range(nn):
                 r = rng.random()
                 nh = 0 if r < 0.08 else (1 if r < 0.4 else (2 if r < 0.75 else 3))
@@ -219,124 +331,212 @@ class C02(Prop):
                         q = rng.random()
                         if q < 0.55 and name + 1 < nn:
                             tgt = rng.randint(name + 1, min(nn - 1, name + 2)) if rng.random() < 0.7 else rng.randint(name + 1, nn - 1)
-                            body.append(['f', tgt, rng.choice(pr)])
+                            body.append(fire(tgt))
                         elif q < 0.78:
                             body.append(['x'])
                         elif q < 0.92:
                             body.append(['s'])
-                    # a handler that is a plain function and returns a generator object (coroutine hand-off),
-                    # with and without a preceding stop(); sometimes in mid-body (the rest is dead code)
+                    # a handler that is a plain function and returns a generator object (coroutine hand-off), or
+                    # raises; with and without a preceding stop(); sometimes in mid-body (the rest is dead code)
                     q = rng.random()
-                    if q < 0.22 or (q < 0.45 and ['s'] in body):
-                        g = ['g', rng.randint(0, 1)]
+                    end = None
+                    if raises and q < 0.3:
+                        end = ['r']
+                    elif q < 0.22 or (q < 0.45 and ['s'] in body):
+                        end = ['g', rng.randint(0, 1)]
+                    if end:
                         if body and rng.random() < 0.2:
-                            body.insert(rng.randint(0, len(body) - 1), g)
+                            body.insert(rng.randint(0, len(body) - 1), end)
                         else:
-                            body.append(g)
+                            body.append(end)
                     hs.append([hid, rng.choice(pr), rng.randint(0, 1), body])
                     hid += 1
                 handlers.append([name, hs])
+            if raises:      # handlers of the reserved events: they fire nothing (termination) and do not raise
+                for rn in [EXC_NAME] + [FAIL_BASE + n for n in fail]:
+                    hs = []
+                    for _ in range(rng.choice([0, 1, 1, 2])):
+                        body = [rng.choice([['x'], ['s'], ['g', 1], ['x']]) for _ in range(rng.randint(0, 2))]
+                        hs.append([hid, rng.choice(pr), rng.randint(0, 1), body])
+                        hid += 1
+                    handlers.append([rn, hs])
             prog = []
             for _ in range(rng.randint(1, 7)):
                 if rng.random() < 0.8:
-                    prog.append(['f', rng.randint(0, min(nn - 1, 2)) if rng.random() < 0.7 else rng.randint(0, nn - 1),
-                                 rng.choice(pr)])
+                    prog.append(fire(rng.randint(0, min(nn - 1, 2)) if rng.random() < 0.7 else rng.randint(0, nn - 1)))
                 else:
                     prog.append(['x'])
             if kind == 'drain':
-                pos = rng.randint(0, len(prog))
-                seg = [['cf', rng.randint(0, nn - 1), rng.choice(pr)] for _ in range(rng.randint(1, 4))] + [['reg']]
-                prog = prog[:pos] + seg + prog[pos:]
-                for _ in range(rng.randint(0, 2)):
-                    prog.append(['cf', rng.randint(0, nn - 1), rng.choice(pr)])
-            prog += [['x']] * (nn + 2)
-            case = {'k': kind, 'handlers': handlers, 'prog': prog}
+                # fires on up to three detached components at arbitrary points, each registered later on (or never)
+                for d in range(rng.randint(1, 3)):
+                    pos = sorted(rng.randint(0, len(prog)) for _ in range(rng.randint(1, 4)))
+                    for i, p in enumerate(pos):
+                        prog.insert(p + i, ['cf', d, rng.randint(0, nn - 1), rng.choice(pr)])
+                    if rng.random() < 0.9:
+                        last = max(i for i, a in enumerate(prog) if a[0] == 'cf' and a[1] == d)
+                        prog.insert(rng.randint(last + 1, len(prog)), ['reg', d])
+                        if rng.random() < 0.4:
+                            prog.append(['cf', d, rng.randint(0, nn - 1), rng.choice(pr)])
+            prog += [['x']] * (nn + 3)
+            case = {'k': kind, 'obs': obs, 'drv': drv, 'fail': fail, 'handlers': handlers, 'prog': prog}
             if est_events(case) <= (160 if tier == "thorough" else 45):
                 return case
 
     def generate(self, rng, n, tier):
         cases = []
         for i in range(n):
-            cases.append(self.gen_one(rng, tier, 'drain' if rng.random() < 0.15 else 'prog'))
+            cases.append(self.gen_one(rng, tier, 'drain' if rng.random() < 0.2 else 'prog'))
         return cases
 
     # ------------------------------------------------------------------ implementation driver
-    def impl(self, c):
-        ctx = Ctx()
-        root, child, det = build(ctx, c)
+    def impl(self, c0):
+        c = norm(c0)
+        ctx = Ctx(c)
+        root, child, dets = build(ctx, c)
         order = base_order(root, c)
         if order != base_order(root, c):
             raise RuntimeError('getHandlers order is not reproducible')
-        self._sched[common.canon(c)] = order
+        self._sched[common.canon(c0)] = order
+        self._ge = getattr(self, '_ge', {})
         ctx.log[:] = []
-        registered = False
-        for a in c['prog']:
-            if a[0] == 'cf':
-                do_fire(ctx, det, a[1], a[2])
-            elif a[0] == 'reg':
-                if not registered:
-                    det.register(root)       # drains det's queue into root's, then fires registered(det, root)
-                    registered = True
-                    ctx.reg_id = ctx.next_id
-                    ctx.next_id += 1
-                    ctx.log.append([0, ctx.reg_id, REG_NAME, 0])
-            else:
-                run_body(ctx, root, [a], None, None, None)
+        registered = [False] * len(dets)
+        pend = [[] for _ in dets]
+        drained = 0
+        running = c['drv'] == 'tickrun' and hasattr(root, '_running')
+        self._ge[common.canon(c0)] = running
+        try:
+            if running:
+                root._running = True          # what run() does before its tick() loop
+            for a in c['prog']:
+                if a[0] == 'cf':
+                    d = a[1]
+                    if registered[d]:
+                        do_fire(ctx, dets[d], a[2], a[3])
+                    else:                     # sits in the component's own queue until register()
+                        pend[d].append((do_fire(ctx, dets[d], a[2], a[3], log=False), a[2], a[3]))
+                elif a[0] == 'reg':
+                    d = a[1]
+                    if not registered[d]:
+                        dets[d].register(root)    # drains its queue into root's, then fires registered(det, root)
+                        registered[d] = True
+                        for e, name, prio in pend[d]:     # arrival in the root queue = their fire order
+                            e.c02_id = ctx.next_id
+                            ctx.next_id += 1
+                            ctx.log.append([0, e.c02_id, name, key2(prio)])
+                            drained += 1
+                        pend[d] = []
+                        ctx.reg_ids[id(dets[d])] = ctx.next_id
+                        ctx.log.append([0, ctx.next_id, REG_NAME, 0])
+                        ctx.next_id += 1
+                elif a[0] == 'x':
+                    if running:               # tick() fires generate_events before it flushes
+                        ctx.ge_id = ctx.next_id
+                        ctx.next_id += 1
+                        ctx.log.append([0, ctx.ge_id, GE_NAME, 0])
+                    do_flush(ctx, root, 'flush' if c['drv'] == 'flush' else 'tick')
+                else:
+                    run_body(ctx, root, [a], None, None, None)
+        finally:
+            if running:
+                root._running = False
         for _ in range(3):           # let the returned generators (tasks) run to their end
             root.tick(0)
         final = [0, 0, len(root)]   # [model crashed, model stack left, queue length]
         st = self.stats
+        log = ctx.log
         st['kinds'][c['k']] = st['kinds'].get(c['k'], 0) + 1
-        ne = sum(1 for e in ctx.log if e[0] == 0)
+        st['drivers'][c['drv']] = st['drivers'].get(c['drv'], 0) + 1
+        ne = sum(1 for e in log if e[0] in (0, 11, 12))
         b = min(ne // 10 * 10, 90)
         st['events_per_case'][str(b)] = st['events_per_case'].get(str(b), 0) + 1
-        md = max([e[3] for e in ctx.log if e[0] == 1] + [0])
+        md = max([e[3] for e in log if e[0] == 1] + [0])
         st['max_depth'][str(md)] = st['max_depth'].get(str(md), 0) + 1
-        st['stops'] += sum(1 for e in ctx.log if e[0] == 2)
-        st['generator_returns'] = st.get('generator_returns', 0) + sum(1 for e in ctx.log if e[0] == 9)
-        stopped = {(e[1], e[2]) for e in ctx.log if e[0] == 2}
-        st['stop_then_generator_return'] = st.get('stop_then_generator_return', 0) + sum(
-            1 for e in ctx.log if e[0] == 9 and (e[1], e[2]) in stopped)
+        st['stops'] += sum(1 for e in log if e[0] == 2)
+        st['generator_returns'] += sum(1 for e in log if e[0] == 9)
+        stopped = {(e[1], e[2]) for e in log if e[0] == 2}
+        st['stop_then_generator_return'] += sum(1 for e in log if e[0] == 9 and (e[1], e[2]) in stopped)
+        st['raises'] += sum(1 for e in log if e[0] == 10)
+        st['cancelled_fires'] += sum(1 for e in log if e[0] == 11)
+        st['prestopped_fires'] += sum(1 for e in log if e[0] == 12)
+        st['drained_events'] += drained
+        if not c['obs']:
+            st['no_observer_cases'] += 1
         if md > 1:
             st['nested_flush_cases'] += 1
-        if len({e[3] for e in ctx.log if e[0] == 0}) > 1:
+        if len({e[3] for e in log if e[0] in (0, 11, 12)}) > 1:
             st['mixed_priority_cases'] += 1
         if c['k'] == 'drain':
             st['drain_cases'] += 1
-        return {'log': ctx.log, 'final': final}
+        return {'log': log, 'final': final}
 
     # ------------------------------------------------------------------ model
     @staticmethod
-    def _acts(body, main=False):
+    def _fire(name, prio, mode=None):
+        return '%s %d (%d)' % ({None: 'F', 'c': 'FC', 's': 'FS'}[mode], name, key2(prio))
+
+    def _body(self, body, name, fail):
         out = []
         for a in body:
-            if a[0] in ('f', 'cf'):
-                out.append('F %d (%d)' % (a[1], key2(a[2])))
+            if a[0] == 'f':
+                out.append(self._fire(a[1], a[2], a[3] if len(a) > 3 else None))
             elif a[0] == 'x':
                 out.append('X')
             elif a[0] == 's':
                 out.append('P')
             elif a[0] == 'g':
                 out.append('G')
-            elif a[0] == 'reg':
-                out.append('F %d 0' % REG_NAME)
+            elif a[0] == 'r':
+                out.append('RA (%d)' % (FAIL_BASE + name if name in fail else -1))
         return '[%s]' % '; '.join(out)
 
-    def model_term(self, c):
-        key = common.canon(c)
+    def _prog(self, c, running):
+        """the main program in arrival order: fires on a detached component count at its register()"""
+        out = []
+        registered, pend = {}, {}
+        for a in c['prog']:
+            if a[0] == 'f':
+                out.append(self._fire(a[1], a[2], a[3] if len(a) > 3 else None))
+            elif a[0] == 'cf':
+                if registered.get(a[1]):
+                    out.append(self._fire(a[2], a[3]))
+                else:
+                    pend.setdefault(a[1], []).append(self._fire(a[2], a[3]))
+            elif a[0] == 'reg':
+                if not registered.get(a[1]):
+                    registered[a[1]] = True
+                    out.extend(pend.pop(a[1], []))
+                    out.append('F %d 0' % REG_NAME)
+            elif a[0] == 'x':
+                if running:
+                    out.append('F %d 0' % GE_NAME)
+                out.append('X')
+        return '[%s]' % '; '.join(out)
+
+    def model_term(self, c0):
+        key = common.canon(c0)
         if key not in self._sched:
-            self.safe_impl(c)
+            self.safe_impl(c0)
         order = self._sched.get(key)
         if order is None:
             return None
-        rows = []
+        c = norm(c0)
+        fail = set(c['fail'])
+        obs = 'H %d (%d) []' % (OBS_HID, key2(OBS_PRIO))
+        rows, seen = [], set()
         for name, hs in c['handlers']:
+            seen.add(name)
             byid = {h[0]: h for h in hs}
             ids = [i for i in order.get(name, []) if i in byid]
             ids += [h[0] for h in hs if h[0] not in ids]      # (handlers the implementation did not report)
-            hl = '; '.join('H %d (%d) %s' % (i, key2(byid[i][1]), self._acts(byid[i][3])) for i in ids)
-            rows.append('R %d [%s]' % (name, hl))
-        return 'obs_run [%s] %d%%nat %s' % ('; '.join(rows), est_steps(c) + 100, self._acts(c['prog'], True))
+            hl = ['H %d (%d) %s' % (i, key2(byid[i][1]), self._body(byid[i][3], name, fail)) for i in ids]
+            if c['obs']:
+                hl.insert(0, obs)
+            rows.append('R %d [%s]' % (name, '; '.join(hl)))
+        if c['obs']:          # the observer is a handler of every event, also of the ones the core fires
+            for name in [GE_NAME, EXC_NAME, REG_NAME] + [FAIL_BASE + n for n in sorted(fail)]:
+                if name not in seen:
+                    rows.append('R %d [%s]' % (name, obs))
+        return 'obs_run [%s] %d%%nat %s' % ('; '.join(rows), est_steps(c), self._prog(c, self._ge.get(key, c['drv'] == 'tickrun')))
 
     def obs_for_model(self, c, obs):
         if isinstance(obs, dict) and '__crash__' in obs:
@@ -344,34 +544,66 @@ class C02(Prop):
         return [[pack(e) for e in obs['log'] if e[0] not in (3, 5)], obs['final']]
 
     # ------------------------------------------------------------------ oracle: the property read on the log
-    def oracle(self, c, obs):
+    def oracle(self, c0, obs):
         if isinstance(obs, dict) and '__crash__' in obs:
             return None
+        c = norm(c0)
         log = obs['log']
+        has_obs = c['obs']
         hprio, hname, byname = {}, {}, {}
         for name, hs in c['handlers']:
             byname[name] = [h[0] for h in hs]
             for h in hs:
                 hprio[h[0]] = h[1]
                 hname[h[0]] = name
-        evprio = {}
-        for a in c['prog']:
-            pass
-        fired = {}            # eid -> (name, python priority, fire index)
-        # priorities by fire order: replay the program text is not needed, the log entry carries 2*priority
+        fired = {}            # eid -> (name, 2*priority, fire index, mode)
         queued, pending = [], []
-        dispatched, invoked, stopped_by, done_inv = [], {}, {}, set()
+        dispatched, invoked, stopped_by = set(), {}, {}
         frames = [{'h': None, 'inflush': 0}]
+
+        def invisible(eid):
+            # a cancelled event is popped without any handler; without the observer an event that has no
+            # handler is popped unseen as well.  Nothing of the program runs while that happens.
+            name, _, _, mode = fired[eid]
+            return mode == 'c' or (not has_obs and not byname.get(name))
+
+        def strip():
+            while pending and invisible(pending[0]):
+                dispatched.add(pending.pop(0))
+
+        def dispatch(eid):
+            if not frames[-1]['inflush']:
+                return 'event %d dispatched outside of a flush() call (inside fire() or a handler body)' % eid
+            if eid in dispatched:
+                return 'event %d dispatched twice' % eid
+            if eid not in fired:
+                return 'event %d dispatched but never fired' % eid
+            if fired[eid][3] == 'c':
+                return 'a handler ran for event %d although it was cancelled before its dispatch' % eid
+            strip()
+            if not pending or pending[0] != eid:
+                if eid in queued and pending:
+                    return ('event %d, fired after the current pass began, was dispatched before %r that were queued '
+                            'when the pass began' % (eid, pending))
+                if eid in queued:
+                    return ('event %d, fired after the current pass began, was dispatched by that same pass '
+                            '(no new flush pass had begun)' % eid)
+                return 'event %d dispatched out of order: the pass requires %r next (priority, then fire order)' % (eid, pending[:3])
+            pending.pop(0)
+            dispatched.add(eid)
+            invoked[eid] = []
+            return None
+
         for idx, e in enumerate(log):
             t = e[0]
             if t == 7:
                 return 'fire() ran a handler re-entrantly (log entry %d)' % idx
             if t == 8:
-                return 'fire()/flush() raised %s (log entry %d)' % (e[1], idx)
-            if t == 0:
+                return 'fire()/flush()/tick() raised %s (log entry %d)' % (e[1], idx)
+            if t in (0, 11, 12):
                 if e[1] in fired:
                     return 'event id %d fired twice' % e[1]
-                fired[e[1]] = (e[2], e[3], len(fired))
+                fired[e[1]] = (e[2], e[3], len(fired), {0: None, 11: 'c', 12: 's'}[t])
                 queued.append(e[1])
             elif t == 4:
                 frames[-1]['inflush'] += 1
@@ -379,30 +611,22 @@ class C02(Prop):
                     pending = sorted(queued, key=lambda i: (fired[i][1], fired[i][2]))
                     queued = []
             elif t == 5:
+                strip()
                 if pending:
                     return 'flush() returned while events %r of the current pass were not dispatched' % pending
                 frames[-1]['inflush'] -= 1
             elif t == 6:
-                eid = e[1]
-                if not frames[-1]['inflush']:
-                    return 'event %d dispatched outside of a flush() call (inside fire() or a handler body)' % eid
-                if eid in dispatched:
-                    return 'event %d dispatched twice' % eid
-                if eid not in fired:
-                    return 'event %d dispatched but never fired' % eid
-                if not pending or pending[0] != eid:
-                    if eid in queued and pending:
-                        return ('event %d, fired after the current pass began, was dispatched before %r that were queued '
-                                'when the pass began' % (eid, pending))
-                    if eid in queued:
-                        return ('event %d, fired after the current pass began, was dispatched by that same pass '
-                                '(no new flush pass had begun)' % eid)
-                    return 'event %d dispatched out of order: the pass requires %r next (priority, then fire order)' % (eid, pending[:3])
-                pending.pop(0)
-                dispatched.append(eid)
-                invoked[eid] = []
+                what = dispatch(e[1])
+                if what:
+                    return what
             elif t == 1:
                 eid, hid, d = e[1], e[2], e[3]
+                if eid is None:
+                    return 'handler %d invoked for an event the driver did not fire' % hid
+                if not has_obs and eid not in invoked:
+                    what = dispatch(eid)      # without the observer the first handler shows the dispatch
+                    if what:
+                        return what
                 if not frames[-1]['inflush']:
                     return 'handler %d invoked re-entrantly (not from a flush() call)' % hid
                 if d != len(frames):
@@ -410,7 +634,8 @@ class C02(Prop):
                 if eid not in invoked:
                     return 'handler %d invoked for event %r that was not dispatched' % (hid, eid)
                 if hname.get(hid) != fired[eid][0]:
-                    return 'handler %d (for e%s) invoked for event %d named e%d' % (hid, hname.get(hid), eid, fired[eid][0])
+                    return 'handler %d (for %s) invoked for event %d named %s' % (
+                        hid, evname(hname.get(hid, 0)), eid, evname(fired[eid][0]))
                 if eid in stopped_by:
                     g = stopped_by[eid]
                     if hprio[hid] < hprio[g]:
@@ -430,19 +655,25 @@ class C02(Prop):
                 frames.pop()
             elif t == 2:
                 stopped_by.setdefault(e[1], e[2])
-            elif t == 9:
+            elif t in (9, 10):
                 if frames[-1]['h'] != (e[1], e[2]):
-                    return 'generator returned by a handler that is not the running one'
+                    return 'generator returned / exception raised by a handler that is not the running one'
         if len(frames) != 1:
             return 'run ended inside a handler'
+        strip()
         for eid in fired:
-            if eid not in invoked:
-                return 'event %d was fired but not dispatched by the %d following flush passes' % (
-                    eid, sum(1 for a in c['prog'] if a[0] == 'x'))
-            name = fired[eid][0]
+            name, _, _, mode = fired[eid]
+            if eid not in dispatched:
+                return 'event %d (%s) was fired but not dispatched by the %d following flush passes' % (
+                    eid, evname(name), sum(1 for a in c['prog'] if a[0] == 'x'))
             want = byname.get(name, [])
-            got = invoked[eid]
-            if eid in stopped_by:
+            got = invoked.get(eid, [])
+            if mode == 'c':
+                if got:
+                    return 'handlers %r ran for the cancelled event %d' % (got, eid)
+            elif mode == 's':
+                pass      # stop() from outside before the dispatch: the statement does not speak about it
+            elif eid in stopped_by:
                 g = stopped_by[eid]
                 missing = [h for h in want if hprio[h] > hprio[g] and h not in got]
                 if missing:
@@ -463,9 +694,9 @@ class C02(Prop):
                 depth += 1
             elif e[0] == 3:
                 depth -= 1
-            elif e[0] == 0 and depth > 0:
+            elif e[0] in (0, 11, 12) and depth > 0:
                 inner_fire = True
-        mixed = len({e[3] for e in log if e[0] == 0}) > 1
+        mixed = len({e[3] for e in log if e[0] in (0, 11, 12)}) > 1
         nested = any(e[0] == 1 and e[3] > 1 for e in log)
         return (inner_fire and mixed) or nested
 
